@@ -78,7 +78,8 @@ def joinElems : List Str → Str
   | [e] => e
   | e :: es => e ++ cComma :: joinElems es
 
-/-- the text[] literal of a list of keys, every key double-quoted (hooks/C12-fix4.patch) -/
+/-- the text[] literal of a list of keys, every key double-quoted: `DeletedPropertiesToString` as it is in /repo since
+commit 6e07961 -/
 def emit (ks : List Str) : Str := cOpen :: joinElems (ks.map quoteKey) ++ [cClose]
 
 def hexDigit (n : Nat) : Nat := if n < 10 then 48 + n else 87 + n
@@ -97,7 +98,7 @@ def goQuoteChar (isPrint : Nat → Bool) (c : Nat) : Str :=
   else if c < 65536 then [cBack, 117] ++ hex 4 c
   else [cBack, 85] ++ hex 8 c
 
-/-- `DeletedPropertiesToString` as it is in /repo: every key through `strconv.Quote` -/
+/-- `DeletedPropertiesToString` before commit 6e07961: every key through `strconv.Quote` (kept for the refutation) -/
 def goQuoteKey (isPrint : Nat → Bool) (k : Str) : Str := cQuote :: k.flatMap (goQuoteChar isPrint) ++ [cQuote]
 def emitGo (isPrint : Nat → Bool) (ks : List Str) : Str := cOpen :: joinElems (ks.map (goQuoteKey isPrint)) ++ [cClose]
 
